@@ -218,6 +218,66 @@ def build_repo_bins():
     return 0
 
 
+def miri_c18(tier, seed):
+    """C18 (thorough tier only): a few dozen small-model C18 histories executed under Miri, which checks every unchecked
+    access, pointer use and `from_utf8_unchecked`-style assumption that the debug-assertion build can only check where a
+    `debug_assert!` happens to stand; outputs are compared with the Lean model as well"""
+    out = {"name": "miri", "evaluations": 0, "failures": [], "suspicions": []}
+    if tier != "thorough":
+        out["note"] = "Miri run is part of the thorough tier"
+        return out
+    g = subprocess.run([HARNESS, "gen", "C18M", "quick", str(seed)], capture_output=True, text=True, env=ENV)
+    cases = g.stdout.splitlines()
+    probe = subprocess.run(["cargo", "+nightly", "miri", "--version"], capture_output=True, text=True, env=ENV)
+    if probe.returncode != 0 or not cases:
+        out["note"] = "Miri (nightly toolchain) is not available here: step skipped"
+        return out
+    env = dict(ENV, VH_FLUSH="1", MIRIFLAGS="-Zmiri-disable-isolation")
+    tdir = os.path.join(ROOT, "target", "miri")
+    b = subprocess.run(["cargo", "+nightly", "miri", "run", "--offline", "--target-dir", tdir, "--", "gen", "none"], cwd=os.path.join(ROOT, "harness"),
+                       capture_output=True, text=True, env=env)   # builds; `gen none` exits at once
+    k = 12
+    chunks = [cases[i::k] for i in range(k)]
+    procs = []
+    for ch in chunks:
+        pr = subprocess.Popen(["cargo", "+nightly", "miri", "run", "--offline", "--target-dir", tdir, "--", "run"], cwd=os.path.join(ROOT, "harness"),
+                              stdin=subprocess.PIPE, stdout=subprocess.PIPE, stderr=subprocess.PIPE, text=True, env=env)
+        procs.append(pr)
+    import threading
+    res = [None] * k
+
+    def feed(i):
+        try:
+            res[i] = procs[i].communicate("".join(c + "\n" for c in chunks[i]), timeout=2400)
+        except subprocess.TimeoutExpired:
+            procs[i].kill()
+            res[i] = procs[i].communicate()
+
+    ths = [threading.Thread(target=feed, args=(i,)) for i in range(k)]
+    [t.start() for t in ths]
+    [t.join() for t in ths]
+    for i in range(k):
+        so, se = res[i]
+        got = so.splitlines()
+        m = subprocess.run([DRIVER], input="".join(c + "\n" for c in chunks[i]), capture_output=True, text=True)
+        want = m.stdout.splitlines()
+        out["evaluations"] += len(got)
+        if "Undefined Behavior" in se or (procs[i].returncode not in (0, None) and len(got) < len(chunks[i])):
+            j = len(got)
+            msg = [l for l in se.splitlines() if "Undefined Behavior" in l or l.strip().startswith("-->")][:3]
+            out["failures"].append({"what": "Miri reports undefined behaviour (or the run died) while executing this case",
+                                    "case": chunks[i][j] if j < len(chunks[i]) else "", "detail": " | ".join(msg)[:1500] or se[-800:]})
+            continue
+        for j, (a, b2) in enumerate(zip(got, want)):
+            if a != b2:
+                out["failures"].append({"what": "under Miri the implementation's result differs from the model's", "case": chunks[i][j],
+                                        "implementation": a[:800], "model": b2[:800]})
+                break
+    out["note"] = f"{out['evaluations']} small-model C18 histories executed under Miri in {k} processes"
+    out["distinct_nontrivial"] = len(set(cases))
+    return out
+
+
 def c11_cli_train(tier, seed):
     """C11 at the tool level: the real `train` binary on generated corpora, dictionaries and tag dictionaries written to files"""
     r = subprocess.run([HARNESS, "c11cli", tier, str(seed)], capture_output=True, text=True, env=ENV)
